@@ -54,6 +54,7 @@ def run_batch(exe, cases, timeout=600, env=None):
     results = {}
     pending = list(cases)
     e = dict(os.environ); e["ASAN_OPTIONS"] = "detect_leaks=0:abort_on_error=0"
+    e["OPENBLAS_NUM_THREADS"] = "1"; e["OMP_NUM_THREADS"] = "1"    # the vendor BLAS must not keep worker threads of its own
     if env:
         e.update(env)
     while pending:
